@@ -541,6 +541,12 @@ func (g *gen) genesis() M {
 	}
 	if g.p(0.5) {
 		s["limits"] = []any{M{"denom": "MINT", "amt": 1 + g.r.Intn(4)}}
+		if g.p(0.3) { // several entries, among them another spelling of the minting denom
+			s["limits"] = append(s["limits"].([]any), M{"denom": "MINT_UP", "amt": 1 + g.r.Intn(6)})
+		}
+		if g.p(0.3) {
+			s["limits"] = append(s["limits"].([]any), M{"denom": "OTHER", "amt": 1 + g.r.Intn(6)})
+		}
 	}
 	return s
 }
